@@ -260,7 +260,7 @@ func doAssert(fr *frame, cond value, msg string) {
 	var classes []string
 	var ids []string
 	for _, k := range p.w.e.known {
-		if k.Status == "known" && k.Harness == c.H.Func && k.Site == msg {
+		if k.Status == "known" && k.Harness == c.H.Func && k.Site == msg && (k.Params == nil || fmt.Sprint(k.Params) == fmt.Sprint(c.Params)) {
 			classes = append(classes, k.Class)
 			ids = append(ids, k.ID)
 		}
